@@ -211,6 +211,7 @@ type c16GenOpt struct {
 	Gaps       bool // include the known codegen gaps (byte arrays, enum arrays)
 	Small      bool
 	IdBase     int // first number used in generated names (keeps the names of two modules apart)
+	Transitive bool // prefer the types of the module the included module includes (not included directly)
 }
 
 var c16Scalars = []string{"int", "bool", "short", "byte", "long", "float", "double", "string"}
@@ -262,15 +263,20 @@ func (g *c16Gen) ty(depth int, self string) *c16Ty {
 	case r < 4 || depth <= 0:
 		if g.dep != nil && g.rng.Intn(3) == 0 { // a struct or enum of the included module
 			var names []string
-			for _, d := range g.dep.Decls {
-				if d.S != nil {
-					names = append(names, d.S.Name)
-				} else if d.E != nil {
-					names = append(names, d.E.Name)
+			for dm := g.dep; dm != nil; dm = dm.Dep { // the included module and, through it, those it includes
+				if g.opt.Transitive && dm == g.dep && dm.Dep != nil && g.rng.Intn(3) > 0 {
+					continue
+				}
+				for _, d := range dm.Decls {
+					if d.S != nil {
+						names = append(names, dm.Name+"::"+d.S.Name)
+					} else if d.E != nil {
+						names = append(names, dm.Name+"::"+d.E.Name)
+					}
 				}
 			}
 			if len(names) > 0 {
-				return &c16Ty{K: "name", Name: g.dep.Name + "::" + names[g.rng.Intn(len(names))]}
+				return &c16Ty{K: "name", Name: names[g.rng.Intn(len(names))]}
 			}
 		}
 		own := ""
@@ -380,10 +386,12 @@ func (g *c16Gen) strct() *c16Struct {
 					mb.Def = e.Mb[g.rng.Intn(len(e.Mb))].Key
 				}
 			}
-			if g.dep != nil && strings.HasPrefix(mb.Ty.Name, g.dep.Name+"::") && g.rng.Intn(2) == 0 {
-				for _, d := range g.dep.Decls {
-					if d.E != nil && g.dep.Name+"::"+d.E.Name == mb.Ty.Name {
-						mb.Def = d.E.Mb[g.rng.Intn(len(d.E.Mb))].Key
+			for dm := g.dep; dm != nil; dm = dm.Dep {
+				if strings.HasPrefix(mb.Ty.Name, dm.Name+"::") && g.rng.Intn(2) == 0 {
+					for _, d := range dm.Decls {
+						if d.E != nil && dm.Name+"::"+d.E.Name == mb.Ty.Name {
+							mb.Def = d.E.Mb[g.rng.Intn(len(d.E.Mb))].Key
+						}
 					}
 				}
 			}
